@@ -194,37 +194,40 @@ type vfStreamH struct {
 	relV    int
 	eof     bool
 	eofErr  string
+	eofErrV error
+	eofAt   time.Duration
 	wq      chan func() // writer job queue (blocking mode)
 	reading bool
 }
 
 type vfSim struct {
-	t        *testing.T
-	o        *vfOrch
-	net      *vfNet
-	rnd      *vfRand
-	sc       *vfE1
-	as       [2]*Association
-	hsErr    [2]error
-	hsDone   [2]bool
-	hsAt     [2]time.Duration
-	lf       logging.LoggerFactory
-	buf      *vfBufLF
-	mu       sync.Mutex
-	reads    []vfReadRec
-	writes   []*vfWriteRec
-	calls    []*vfCall
-	handles  [2]map[*Stream]*vfStreamH
-	bySID    [2]map[uint16][]*vfStreamH
-	pauseCh  [2]chan struct{}
-	nextID   int
-	base     time.Time // instant both sides were established
-	rdBuf    int
-	notes    []string
-	accepted [2]int
-	role     [2]int             // 0 default (side 0 client, side 1 server), 1 client, 2 server
-	baseOff  time.Duration      // establishment instant relative to the start of the simulation
-	onRead   func(r *vfReadRec) // called under s.mu
+	t          *testing.T
+	o          *vfOrch
+	net        *vfNet
+	rnd        *vfRand
+	sc         *vfE1
+	as         [2]*Association
+	hsErr      [2]error
+	hsDone     [2]bool
+	hsAt       [2]time.Duration
+	lf         logging.LoggerFactory
+	buf        *vfBufLF
+	mu         sync.Mutex
+	reads      []vfReadRec
+	writes     []*vfWriteRec
+	calls      []*vfCall
+	handles    [2]map[*Stream]*vfStreamH
+	bySID      [2]map[uint16][]*vfStreamH
+	pauseCh    [2]chan struct{}
+	nextID     int
+	base       time.Time // instant both sides were established
+	rdBuf      int
+	notes      []string
+	accepted   [2]int
+	role       [2]int             // 0 default (side 0 client, side 1 server), 1 client, 2 server
+	baseOff    time.Duration      // establishment instant relative to the start of the simulation
+	acceptExit [2]time.Duration   // instant the accept loop of the side returned
+	onRead     func(r *vfReadRec) // called under s.mu
 }
 
 func newVfSim(t *testing.T, sc *vfE1, verbose bool) *vfSim {
@@ -486,6 +489,9 @@ func (s *vfSim) acceptLoop(side int) {
 	for {
 		st, err := a.AcceptStream()
 		if err != nil {
+			s.mu.Lock()
+			s.acceptExit[side] = s.net.now() + 1
+			s.mu.Unlock()
 			return
 		}
 		s.mu.Lock()
@@ -542,6 +548,8 @@ func (s *vfSim) reader(h *vfStreamH) {
 		if err != nil && !errors.Is(err, io.ErrShortBuffer) {
 			h.eof = true
 			h.eofErr = err.Error()
+			h.eofErrV = err
+			h.eofAt = r.T
 		}
 		s.mu.Unlock()
 		if err != nil && !errors.Is(err, io.ErrShortBuffer) {
@@ -704,6 +712,17 @@ func (s *vfSim) doWrite(side int, sid uint16, size int, ppi uint32) *vfWriteRec 
 }
 
 func (s *vfSim) act(a *vfAct) {
+	switch a.Kind { // transport-level actions do not need an association object
+	case "connclose":
+		s.net.conns[a.Side].Close()
+		return
+	case "readerr":
+		s.net.conns[a.Side].failRead(errors.New("vf: injected read error"))
+		return
+	case "writeerr":
+		s.net.conns[a.Side].failWrite(errors.New("vf: injected write error"))
+		return
+	}
 	if s.as[a.Side] == nil {
 		return
 	}
@@ -836,6 +855,15 @@ func vfPeekAssoc(a *Association) vfPeek {
 
 func (s *vfSim) history(maxWire int) string {
 	var b strings.Builder
+	if s.buf != nil {
+		s.buf.mu.Lock()
+		lg := s.buf.buf.String()
+		s.buf.mu.Unlock()
+		if len(lg) > 120000 {
+			lg = lg[:60000] + "\n...\n" + lg[len(lg)-60000:]
+		}
+		fmt.Fprintf(&b, "--- library log ---\n%s\n", lg)
+	}
 	s.net.mu.Lock()
 	wire := s.net.wire
 	s.net.mu.Unlock()
@@ -885,15 +913,6 @@ func (s *vfSim) history(maxWire int) string {
 		fmt.Fprintf(&b, "note: %s\n", n)
 	}
 	s.mu.Unlock()
-	if s.buf != nil {
-		s.buf.mu.Lock()
-		lg := s.buf.buf.String()
-		s.buf.mu.Unlock()
-		if len(lg) > 400000 {
-			lg = lg[:200000] + "\n...\n" + lg[len(lg)-200000:]
-		}
-		fmt.Fprintf(&b, "--- library log ---\n%s", lg)
-	}
 	return b.String()
 }
 
